@@ -284,8 +284,9 @@ def run(ctx):
         ctx.ob("R3", "count_rules-is-len", ok and n >= 2, ctx.where(CR), why or "returns kb[key].len() or 0")
         # add_rules: only push / insert(vec![rule])
         muts = set()
-        for bb, t in AR.calls():
-            nm = t["callee"].get("resolved") or t["callee"]["path"]
+        fam_bodies = [b for b in prog.lib_bodies() if b.path in S.family(AR.path)]
+        for bb, t in [c for fb in fam_bodies for c in fb.calls()]:
+            nm = t["callee"].get("resolved") or t["callee"].get("path") or ""
             if any(nm.endswith(x) for x in ("::push", "::insert", "::get_mut", "::remove", "::swap_remove", "::clear",
                                             "::truncate", "::sort", "::reverse", "::retain", "::pop", "::drain",
                                             "::entry", "::extend", "::append", "::swap")):
